@@ -7,14 +7,14 @@ PROP = {
                  'doubles bit for bit on every generated op (checked this run)',
                  'speeds are not -0.0 / NaN (is_sign_positive is modelled as 0 <= v)'],
  'blocks': ['sp'],
- 'namespaces': ['Altrios.Proofs.C02', 'Altrios.Proofs.C13'],
+ 'namespaces': ['Altrios.Proofs.C02', 'Altrios.Proofs.C13', 'Altrios.Proofs.C13Lit', 'Altrios.Proofs.SPLit'],
  'nontrivial_stats': ['sp.branch.', 'sp.route.set_applies', 'sp.route.set_gated_off'],
- 'proof_modules': ['C02'],
+ 'proof_modules': ['C02', 'C13Lit'],
  'required_theorems': ['Altrios.Proofs.C13.C13_insert_exact',
                        'Altrios.Proofs.C02.C02_insert_sound',
                        'Altrios.Proofs.C02.C02_insert_mono',
                        'Altrios.Proofs.C02.C02_profile_sound',
-                       'Altrios.Proofs.C02.C02_route_sound'],
+                       'Altrios.Proofs.C02.C02_route_sound'] + ['Altrios.Proofs.C13Lit.C13_literal_eq_iff', 'Altrios.Proofs.C13Lit.C02_insert_sound_literal', 'Altrios.Proofs.C13Lit.C02_insert_mono_literal', 'Altrios.Proofs.C13Lit.C13_profile_literal', 'Altrios.Proofs.C13Lit.C13_profile_literal_false', 'Altrios.Proofs.C13Lit.C02_profile_sound_literal', 'Altrios.Proofs.C13Lit.C02_route_literal'],
  'rule': 'each evaluation is one call of the real insert_speed / PathTpc::extend (one link) replayed through the '
          'literal and the structural Lean model; non-trivial = the call went through one of the counted branches '
          '(after-end, abutting, general, strictly-inside, zero-length) or a gated/applied speed set'}
@@ -32,4 +32,5 @@ TEXT = {'design_ref': '§7.2',
          "induction to any sequence of restrictions from the train's maximum speed (C02_profile_sound) and to any "
          'route built by add_speeds with tail-end extension and parameter gating, for any split into extend calls '
          '(C02_route_sound, C02_split). The structural model the theorems are about, its literal index transcription '
-         'and the real insert_speed / PathTpc::extend are compared on every run (three-way, bit-exact).'}
+         'and the real insert_speed / PathTpc::extend are compared on every run (three-way, bit-exact).'
+         ' The index-level transcription of the Rust loop (insertSpeedIdx: find start, insert, while-update with removals, restore point, final merge — the definition compared bit for bit with the code) is proved never to panic or err under the contract (C13_insert_total_literal), to be exact / sound under the contract alone (C13_insert_exact_literal, C02_insert_sound_literal) and EQUAL to the structural function exactly when no redundant point sits in the gap (C13_literal_eq_iff; always true of vectors built from [(0, vmax)], C13_profile_literal, C02_route_literal); the two statements that are false at full strength are kept with their witnesses (C13_literal_eq_false: a redundant stored point outside [start,end] is dropped; C13_profile_literal_false: stacked zero-length restrictions at the tail reach three points at one offset, the debug_assert of insert_speed).'}
